@@ -319,6 +319,9 @@ class MinGenSet():
         """
         Solves the minimum generating set problem. Returns `True` if the model was solved, `False` otherwise.
         """
+        # A new run starts: what an earlier run on this object proved does not count for this one
+        self._is_solved = False
+        self._solution = None
         start_time = time.perf_counter()
 
         # Solve for increasing numbers of elements in the generating set
